@@ -1,5 +1,7 @@
 package expressions
 
+import "github.com/osteele/liquid/values"
+
 type expressionWrapper struct {
 	fn func(ctx Context) (any, error)
 }
@@ -25,7 +27,7 @@ func Not(e Expression) Expression {
 			if err != nil {
 				return nil, err
 			}
-			return (value == nil || value == false), nil
+			return !values.Truthy(value), nil
 		},
 	}
 }
